@@ -427,3 +427,45 @@ fn encoder_from_reader_contract() {
 	}
 	kani::cover!(chunk == 1 && len == 6); kani::cover!(len == 2); kani::cover!(unsafe { NEW_ENC } == 4);
 }
+
+// ---- C02: the decoders do not depend on how the source's buffer is refilled ---------------------------------------------
+// The step harnesses above read from a slice (fill_buf returns everything).  Here the same bytes come through a
+// BufRead whose fill_buf / read hand out at most `chunk` bytes at a time (1..=3, so a code unit may straddle refills):
+// the first item decoded must be the same as from the slice -- same character, same error kind, same end.
+fn same_item(a: &Option<io::Result<char>>, b: &Option<io::Result<char>>) -> bool {
+	match (a, b) {
+		(None, None) => true,
+		(Some(Ok(x)), Some(Ok(y))) => x == y,
+		(Some(Err(x)), Some(Err(y))) => x.kind() == y.kind(),
+		_ => false,
+	}
+}
+#[kani::proof]
+#[kani::unwind(10)]
+fn utf32_refill_schedule_independent() {
+	let data: [u8; 8] = kani::any();
+	let n: usize = kani::any(); kani::assume(n <= 8);
+	let chunk: usize = kani::any(); kani::assume(chunk >= 1 && chunk <= 3);
+	let big: bool = kani::any();
+	let e = |b: bool| if b { Endianness::Big } else { Endianness::Little };
+	let a = Utf32Decoder::new(&data[..n], e(big)).next();
+	let b = Utf32Decoder::new(Dribble { data, len: n, pos: 0, chunk }, e(big)).next();
+	assert!(same_item(&a, &b), "UTF-32 decoding depends on how the source refills its buffer");
+	kani::cover!(matches!(b, Some(Ok(_))) && chunk == 1);
+	kani::cover!(matches!(b, Some(Err(_))) && n == 3);
+	std::mem::forget(a); std::mem::forget(b);
+}
+#[kani::proof]
+#[kani::unwind(10)]
+fn utf16_refill_schedule_independent() {
+	let data: [u8; 8] = kani::any();
+	let n: usize = kani::any(); kani::assume(n <= 6);
+	let chunk: usize = kani::any(); kani::assume(chunk >= 1 && chunk <= 3);
+	let big: bool = kani::any();
+	let e = |b: bool| if b { Endianness::Big } else { Endianness::Little };
+	let a = Utf16Decoder::new(&data[..n], e(big)).next();
+	let b = Utf16Decoder::new(Dribble { data, len: n, pos: 0, chunk }, e(big)).next();
+	assert!(same_item(&a, &b), "UTF-16 decoding depends on how the source refills its buffer");
+	kani::cover!(matches!(b, Some(Ok(c)) if c as u32 > 0xFFFF) && chunk == 1);
+	std::mem::forget(a); std::mem::forget(b);
+}
